@@ -59,6 +59,7 @@ class CFG:
     def __init__(self, fn: ast.AST, env: Optional[Dict[str, ast.expr]] = None):
         self.fn = fn
         self.env = env
+        self._orig_node = None
         self.nodes: List[Node] = []
         self.entry = self._new("entry", None)
         self.exit = self._new("exit", None)
@@ -216,7 +217,20 @@ class CFG:
         while cur is not None and id(cur) not in self.stmt_node:
             cur = parent(cur)
         if cur is None:
-            raise KeyError("statement not in this CFG")
+            # st may be a node of the parsed module while this CFG was built over a copy of the function (helpers inlined,
+            # comprehensions written out): find the copy of its statement
+            if self._orig_node is None:
+                self._orig_node = {}
+                for k_, nd in self.stmt_node.items():
+                    o = getattr(nd.ast, "_orig", None)
+                    if o is not None:
+                        self._orig_node[id(o)] = None if id(o) in self._orig_node else nd   # two copies of one statement: ambiguous
+            cur = st
+            while cur is not None and self._orig_node.get(id(cur)) is None:
+                cur = parent(cur)
+            if cur is None:
+                raise KeyError("statement not in this CFG")
+            return self.nodes[self._orig_node[id(cur)].id]
         return self.nodes[self.stmt_node[id(cur)].id]
 
     def succ_ids(self, i: int, skip_exc: bool = False) -> List[int]:
@@ -480,6 +494,12 @@ def _gen(n: "Node") -> FrozenSet:
             vt = norm.U(v)
             if t not in _names_of_text(vt)[0] and vt != t:
                 return frozenset([norm.mk_cmp("==", t, vt)])
+        if isinstance(v, (ast.Compare, ast.BoolOp)) or (isinstance(v, ast.UnaryOp) and isinstance(v.op, ast.Not)):
+            # x = <condition>: x is a name for the condition until x or one of its operands is stored to
+            #   (x -> C)  and  (not x -> not C), as two ordinary disjunction facts
+            if isinstance(a.targets[0], ast.Name) and t not in norm.names_in(v) and not any(isinstance(z, (ast.Call, ast.NamedExpr, ast.Await, ast.Yield, ast.Lambda)) for z in ast.walk(v)):
+                C = norm.nnf(v, True, None)
+                return frozenset([norm._mk("or", [("truth", t, False), C]), norm._mk("or", [("truth", t, True), norm.neg(C)])])
         if isinstance(v, ast.Call) and isinstance(v.func, ast.Name) and v.func.id in ("max", "min") and v.args and not v.keywords:
             out = set()
             for x in v.args:
